@@ -23,6 +23,7 @@ def run(ctx):
     ctx.guard(order, ctx)
     ctx.guard(generators, ctx)
     ctx.guard(forwarding, ctx)
+    ctx.guard(entry, ctx)
     from . import c01 as _c01
     ctx.shared(_c01.order, ctx)                # instances come into being through MetaClass.new only (where the defaults are computed)
     ctx.assume('a random 128-bit uuid4 is never 0 and never repeats (probabilistic; not decided)')
@@ -231,6 +232,31 @@ def _assign_phase(r, Q, lp, inst, positional):
     r.check(pm.match(['_D[%s] = %s' % (name, value)], ref) is not None,
             '%s referential argument is collected for the batch relate' % what, g, construct=Q, key=what + '-collect',
             msg='%s phase does not collect referential values as <dict>[%s] = %s' % (what, name, value))
+
+
+def entry(ctx):
+    '''the creation entry points hand their positional and keyword arguments to MetaClass.new untouched (a filtered or re-built
+    argument set loses explicitly given falsy values: 0, '', False, the null id)'''
+    from .. import absint as _ai
+    repo = ctx.repo
+    r = ctx.rule('C19-ENTRY', 'MetaModel.new and calling a metaclass forward their arguments to MetaClass.new unchanged', floor=2,
+                 oracle='property statement (positional arguments in declaration order, then keyword arguments)')
+    for q, recv in (('xtuml.meta:MetaModel.new', 'self.find_metaclass(%s)'), ('xtuml.meta:MetaClass.__call__', 'self')):
+        fn = repo.func(q, required=False)
+        if fn is None:
+            continue
+        a = fn.args
+        if not (a.vararg and a.kwarg):
+            r.violation('%s no longer takes *args and **kwargs' % q, fn, construct=q, key='signature')
+            continue
+        ps = param_names(fn)
+        want = '%s.new(*%s, **%s)' % (recv % ps[0] if '%s' in recv else recv, a.vararg.arg, a.kwarg.arg)
+        it_ = _ai.Interp(fn, [])
+        it_.pure_calls = {'find_metaclass', 'new', 'dict', 'list', 'tuple'}
+        out_, tr_ = it_.run({})
+        v = _ai.strip0(out_.value) if out_.kind == 'return' and out_.value is not None else None
+        r.check(v is not None and pm.match(want, v) is not None, '%s returns %s' % (q.split(':')[1], want), fn, construct=q, key='forward-args',
+                msg='%s creates the instance with `%s`; it must hand its arguments on unchanged: `%s`' % (q, src(v) if v is not None else out_, want))
 
 
 def forwarding(ctx):
